@@ -2,8 +2,8 @@
   C20 — trapezoid gradient designers (sigpy/mri/rf/trajgrad.py: `trap_grad`, `min_trap_grad`, `spokes_grad`).
 
   Core Lean only.  Everything is written *generically* over a type `α` with `+ - * / <` and `Nat` casts and
-  over the record `Gen.TrapGrad.Ops α` of the three non-field operations (`ceil`, `ceil (sqrt x / y / z)`,
-  `floor (x / sqrt s / z)`).  The very same definitions are
+  over the record `Gen.TrapGrad.Ops α` of the non-field operations (`ceil` and `<` at numbered sites,
+  `ceil (sqrt x / y / z)`, `floor (x / sqrt s / z)`).  The very same definitions are
     * reasoned about over ℝ in `Props/C20.lean` (`Ops` := `Nat.ceil`, `Real.sqrt`), and
     * executed over `Rat` by the driver (`Ops` := exact rational ceiling + integer *hints* for the two
       square-root operations, which the driver checks against their defining inequalities in squared
@@ -15,6 +15,7 @@
 -/
 import SigpyVerif.Model.Py
 import SigpyVerif.Gen.TrapGrad
+import SigpyVerif.Gen.Spokes
 namespace SigpyVerif.C20
 open SigpyVerif.Gen.TrapGrad
 
@@ -45,7 +46,7 @@ def Design.flat (d : Design α) : List α := (List.replicate d.nflat ((1 : Nat) 
 def trapGrad (ops : Ops α) (area gmax dgdt dt : α) : Design α :=
   let r0 := trapRamppts0 ops gmax dgdt dt
   let tam : α := trapTriareamax r0 gmax dt
-  if trapIsTriangle tam area then
+  if trapIsTriangle ops tam area then
     let r := trapTriRamppts ops area dgdt dt
     ⟨r, 0, trapScale area (pulse (α := α) r 0).sum dt⟩
   else
@@ -59,7 +60,7 @@ def minTrapGrad (ops : Ops α) (area gmax dgdt dt : α) : Option (Design α) :=
   let pts := minPts ops area dgdt dt
   if pts = 0 then none else
   let fv : α := minFlatVal pts area dt
-  if minOverGmax fv gmax then
+  if minOverGmax ops fv gmax then
     let pts2 := minPts2 ops area gmax dt
     if pts2 = 0 then none else
     let fv2 : α := minFlatVal pts2 area dt
@@ -85,19 +86,35 @@ def floorDivSqrt2Ok (x s z : α) (p : Nat) : Bool :=
 /-- exact ceiling of a rational as a natural (0 for negatives, like an array length) -/
 def ratCeilNat (q : Rat) : Nat := (Rat.ceil q).toNat
 
-/-- operations over `Rat`: exact ceiling; the square-root operations return the supplied hints -/
-def ratOps (hc hf : Nat) : Ops Rat := ⟨ratCeilNat, fun _ _ _ => hc, fun _ _ _ => hf⟩
+/-- operations over `Rat`.  Exact ceiling and comparison; the square-root operations return the supplied
+hints.  `cf` / `lf` are per-site overrides used by the correspondence ONLY to follow the float code through a
+rounding that crossed an integer: `cf[site] = some x'` makes the ceiling of that site `⌈x'⌉` for the double `x'`
+the float code actually rounded (see `Props/C20.lean`, `ceil_perturb_iff`), `lf[site] = some b` forces a
+comparison.  With `cf = lf = []` these are the exact operations, the ones the `_rat` theorems are about. -/
+def ratOps (hc hf : Nat) (cf : List (Option Rat)) (lf : List (Option Bool)) : Ops Rat :=
+  ⟨fun site q => ratCeilNat ((cf.getD site none).getD q), fun _ _ _ => hc, fun _ _ _ => hf,
+   fun site a b => (lf.getD site none).getD (decide (a < b))⟩
 
 /-- are the hints the true values of the square-root operations *on the arguments the generated formulas
-pass to them*?  (`opsProbe` re-runs the generated formula with an `Ops` that evaluates the check.) -/
+pass to them*?  (re-runs the generated formula with an `Ops` that evaluates the check.) -/
 def trapHintOk (area dgdt dt : Rat) (hc : Nat) : Bool :=
-  trapTriRamppts (⟨ratCeilNat, fun x y z => if ceilSqrtDiv2Ok x y z hc then 1 else 0, fun _ _ _ => 0⟩ : Ops Rat) area dgdt dt == 1
+  trapTriRamppts (⟨fun _ => ratCeilNat, fun x y z => if ceilSqrtDiv2Ok x y z hc then 1 else 0, fun _ _ _ => 0,
+    fun _ a b => decide (a < b)⟩ : Ops Rat) area dgdt dt == 1
 
 def minHintOk (area dgdt dt : Rat) (hf : Nat) : Bool :=
   -- `minPts` may wrap the floor in `max(·, 1)`: probe values 2 / 0 survive it distinguishably
-  minPts (⟨ratCeilNat, fun _ _ _ => 0, fun x s z => if floorDivSqrt2Ok x s z hf then 2 else 0⟩ : Ops Rat) area dgdt dt == 2
+  minPts (⟨fun _ => ratCeilNat, fun _ _ _ => 0, fun x s z => if floorDivSqrt2Ok x s z hf then 2 else 0,
+    fun _ a b => decide (a < b)⟩ : Ops Rat) area dgdt dt == 2
 
-/-! ### `spokes_grad` (list level) -/
+/-- **what the driver runs** for `trap_grad` (exact operations, checked hint) -/
+def trapGradRat (hc : Nat) (area gmax dgdt dt : Rat) : Design Rat := trapGrad (ratOps hc 0 [] []) area gmax dgdt dt
+
+/-- **what the driver runs** for `min_trap_grad` (exact operations, checked hint) -/
+def minTrapGradRat (hf : Nat) (area gmax dgdt dt : Rat) : Option (Design Rat) :=
+  minTrapGrad (ratOps 0 hf [] []) area gmax dgdt dt
+
+/-! ### `spokes_grad` (list level): the closed form of the generated assembly `Gen.Spokes.spokesGrad`
+(`Props/C20Spokes.lean`: `spokes_closed_form`, `spokesAxis_eq`) -/
 
 /-- one axis of `spokes_grad`: per spoke either zeros of the slice-select length or zeros followed by the
 signed blip (`gx = gx[: len(gx) - len(blip)]; gx.extend(blip)` after `gx.extend([0] * len(subgz))`),
@@ -110,5 +127,20 @@ def spokesAxis (nsub nref : Nat) (blips : List (Option (List α))) : List α :=
 /-- the slice axis: the slice-select lobe with alternating sign, then the negated refocusing lobe -/
 def spokesGz (sub ref : List α) (n : Nat) : List α :=
   ((List.range n).map fun i => if i % 2 = 0 then sub else sub.map (fun x => -x)).flatten ++ ref.map (fun x => -x)
+
+/-- a designer replaced by a finite table `area ↦ samples` (the correspondence runs the real `spokes_grad` with
+labelled sub-waveforms): the entry whose key is within `10⁻⁹` (relative) of the requested area — the real code hands
+the designers the float evaluation of the area expression, the model the exact value —, else a poison waveform. -/
+def tableDesigner (keys : List Rat) (waves : List (List Rat)) (a : Rat) : List Rat :=
+  match (keys.zip waves).find? (fun kw => let d := kw.1 - a; (if d < 0 then -d else d) * 1000000000 ≤ (if a < 0 then -a else a)) with
+  | some kw => kw.2
+  | none => [-777]
+
+/-- **what the driver runs** for `spokes_grad`: the generated assembly over `Rat` with table designers; `none` when
+the three rows have different lengths (`np.vstack` raises `ValueError`) -/
+def spokesGradRat (mk : List Rat) (mw : List (List Rat)) (tk : List Rat) (tw : List (List Rat)) (kx ky : List Rat)
+    (n : Nat) (tbw sl gts : Rat) : Option (List Rat × List Rat × List Rat) :=
+  let g := Gen.Spokes.spokesGrad (tableDesigner mk mw) (tableDesigner tk tw) (fun i => kx.getD i 0) (fun i => ky.getD i 0) n tbw sl gts
+  if g.1.length = g.2.1.length ∧ g.2.1.length = g.2.2.length then some g else none
 
 end SigpyVerif.C20
